@@ -50,7 +50,9 @@ META = dict(
                'filters, subscriptions, duplicates, removals in any order '
                'incl. referenced ones, permanent subscriptions on owned '
                'ends, client restart with an old ID, remove_all_servers, '
-               'context-manager exit, foreign instances created directly) on '
+               'context-manager exit (normally or through an exception of the '
+               'block), removals through paths that carry a host, foreign '
+               'instances created directly) on '
                '1-2 mock servers and 1-3 managers whose IDs / filter IDs / '
                'destination IDs come (all three kinds alike) from pools of '
                'colliding strings (regex metacharacters, prefixes of each '
